@@ -11,6 +11,7 @@ CONSTANTS MaxDepth, Shapes, FullMaskSize
 
 ShapesQuick == {<<3>>, <<4>>, <<5>>, <<2,3>>, <<3,3>>, <<2,4>>, <<2,2,3>>}
 ShapesThorough == ShapesQuick \cup {<<6>>, <<3,4>>, <<2,3,3>>, <<2,2,2,2>>}
+ShapesThoroughBook == ShapesQuick \cup {<<3,4>>, <<2,3,3>>}       \* for the (costlier) bookkeeping laws
 VARIABLES s, depth
 vars == <<s, depth>>
 
